@@ -181,6 +181,12 @@ def run_shard(shard):
         trees.add(driver.h64(sorted(observed.items())))
         for p in ctx.points:
             sites.add(p.label)
+        if stats.executions % 50 == 0 and bad is None:
+            again = run(explorer.Ctx(tuple(ctx.choices)))
+            res.count("thread_schedules_executed_twice")
+            if again[0] != observed or again[2].trace != sched.trace:
+                res.error("NONDETERMINISM (audit) C11 threads %r %s"
+                          % (op, wtype))
         if stats.executions % 100 == 0:
             gc.collect()
         if bad is not None:
